@@ -280,6 +280,11 @@ ApplyList(h, o) ==
          \* enabled only inside the domain: non-empty; first element unsortable, or homogeneous
          IF ~Sortable(e[1].k) THEN {Res(Panic, h)}
          ELSE {Res(Self, Upd(SortVals(e)))}
+    [] o.op = "SortAny" ->
+         \* Sort as documented for any non-empty list: the first element decides the kind, "values of other types
+         \* are ignored" (they are dropped); outside C17's domain, used for C19 (the returned value is the receiver)
+         IF ~Sortable(e[1].k) THEN {Res(Panic, h)}
+         ELSE {Res(Self, Upd(SortVals(SelectSeq(e, LAMBDA x : x.k = e[1].k))))}
     [] o.op = "SubList" ->
          IF o.j > n \/ o.j < -n THEN {Res(Panic, h)}
          ELSE LET end == IF o.j <= 0 THEN n + o.j ELSE o.j IN
@@ -388,7 +393,7 @@ Apply(h, o) ==
          LET s == CopyVal(h, Ref(o.r), NativeF) IN {Res(Ok(s[2]), s[1])}
     [] o.op \in {"NewListFrom", "NewObjectFrom"} ->
          LET s == CopyVal(h, Ref(o.r), FromF) IN {Res(Ok(s[2]), s[1])}
-    [] o.op \in {"Add", "Insert", "Replace", "Delete", "Pop", "Clear", "Reverse", "Sort",
+    [] o.op \in {"Add", "Insert", "Replace", "Delete", "Pop", "Clear", "Reverse", "Sort", "SortAny",
                  "SubList", "Concat", "Slice", "FilterAll", "MapId"} -> ApplyList(h, o)
     [] o.op \in {"Set", "Unset", "ClearO", "Keys", "Values", "Pluck", "Dict", "Merge", "MapIdO"} -> ApplyObject(h, o)
     [] o.op \in {"GoSet", "GoAppend", "GoDelete"} -> ApplyGo(h, o)
